@@ -467,3 +467,9 @@ func (b *bigInt) String() string {
 	}
 	return sb.String()
 }
+
+var (
+	tString = types.Typ[types.String]
+	tRune   = types.Typ[types.Int32]
+	tBytes  = types.NewSlice(types.Typ[types.Uint8])
+)
